@@ -5,6 +5,7 @@
 SEEDS="${1:-40}"; CASES="${2:-300}"
 cd /verif && ./check build >/dev/null || exit 2
 SIM=/verif/sim/target/release/sim
+if [ -n "${DET_PRIVATE_COPY:-}" ]; then cp $SIM /verif/sim/target/sim-det-copy && SIM=/verif/sim/target/sim-det-copy; fi
 D=$(mktemp -d /verif/sim/target/det.XXXX)
 bad=0; total=0
 for eng in srcsim lifesim histsim thrsim; do
